@@ -55,6 +55,8 @@ def gen_file(ctx):
                 out.append("-" + r.choice(dn))
             elif x < 0.82 and dn:
                 out.append("+" + r.choice(dn))
+            elif x < 0.88 and dn:
+                out.append(r.choice(["--", "---", "-+"]) + r.choice(dn))       # not a defined name and not the negation of one: a word of its own
             else:
                 out.append(r.choice(["undefinedWord", "zz", "-qq", "phase", "alpha_s", "K*-", "H--", "x+-", "NaN", "-inf", "dm-", "beta+"]))
         return out
